@@ -26,7 +26,7 @@ def run(ctx):
                'a zero-byte output file means no records')
     ctx.require_events('split:checked', 'metadata:checked')
     ctx.require_regimes('all-good', 'all-bad', 'mixed', 'criterion:chi', 'criterion:cpd', 'names:auto', 'names:explicit', 'input:file', 'input:list',
-                        'best:nan', 'best:inf', 'n_data=1', 'flag-4-points', 'nan-suffix', 'names:mixed', 'outputs:re-used-names', 'flags-changed-after-n_data-was-read')
+                        'best:nan', 'best:inf', 'n_data=1', 'flag-4-points', 'nan-suffix', 'names:mixed', 'outputs:re-used-names', 'flags-changed-after-n_data-was-read', 'threshold:close-to-attained-value')
     d = ctx.newdir('c18')
     n_models, nb = 5, 8
     names = gen.model_names(rng, n_models, 'num')
@@ -102,6 +102,11 @@ def run(ctx):
         cand = [1e-3]
         if fin.size:
             cand = list((fin[:-1] + fin[1:]) / 2) + [float(fin[0]) * 0.5, float(fin[-1]) * 2 + 1.0, float(fin[-1]) * 1e3 + 1]
+        if fin.size and ic % 2 == 0:
+            # ... or very close to an attained value (not equal to it): "below the threshold" has no tolerance
+            qv = float(fin[int(rng.integers(fin.size))])
+            cand = [qv * (1 + 3e-6), qv * (1 - 3e-6)] if qv != 0 else cand
+            ctx.regime('threshold:close-to-attained-value')
         cand = [c for c in cand if c != 0 and np.isfinite(c) and not np.any(q == c)]
         thr = float(cand[int(rng.integers(len(cand)))])
         want_good = [r['source']['name'] for r, v in zip(recs, q) if v < thr]
